@@ -35,19 +35,20 @@ LEVEL_TEXT = ("Generated-input search over constructed stopping games rich in ze
 LEVEL_NOTE = ("Trusted: harness/exact.py (T, values), the sweep bound of DESIGN 2.5, the run-time wrappers in "
               f"harness/budget.py. Only games with T <= {T_MAX} (input) and T_c <= 600 (conditioned) are explored; "
               "'no solution' is decided only when value(0) is 0 or above the numerical tolerance.")
-RULE = ("case = (stopping game, route) with route in {solve(prune), solve(no prune), run_games}. Non-trivial = the game "
+RULE = ("case = (stopping game, route) with route in {solve(prune), solve(no prune), run_games, two solves of the same description}. Non-trivial = the game "
         "has a Player 1 / probabilistic list with >= 2 zero-value successors, or is a no-solution game, or needed "
         "> 50 sweeps. Distinct = different (game, route).")
 ASSUMPTIONS = [f"explores stopping games with exact T <= {T_MAX} and conditioned T_c <= 600; slower games are counted "
                "inconclusive", "value(0) strictly between 0 and threshold x (T+1) is counted undecided for the "
-               "no-solution clause"]
+               "no-solution clause, unless state 0 itself moves into a final state with positive probability (then any "
+               "iteration from below reports a positive figure after its first sweep)"]
 CLASS_FLOORS = {"no_solution_game": 0.1, "dead>=2": 0.1}
 
 
 @st.composite
 def cases(draw, max_inner=10):
     g = draw(games.stopping_games(min_inner=1, max_inner=max_inner, max_sinks=3, zero_edges=True))
-    route = draw(st.sampled_from(("prune", "prune", "no_prune", "batch")))
+    route = draw(st.sampled_from(("prune", "prune", "no_prune", "batch", "again_pp", "again_pn", "again_np")))
     return dict(game=g, route=route)
 
 
@@ -70,7 +71,7 @@ def planted():
         sink_game(P2, [("a", 3), ("b", 4)], [PR, PR], [[(0.5, 1), (0.5, 2)], [(0.5, 1), (0.5, 0)]]),
     ]
     for g in gs:
-        for route in ("prune", "no_prune", "batch"):
+        for route in ("prune", "no_prune", "batch", "again_pn", "again_pp"):
             yield dict(game=g, route=route)
 
 
@@ -133,9 +134,39 @@ def check_medium(case):
     return v
 
 
+def positive_after_one_sweep(game):
+    """State 0 is certain to carry a positive reachability figure after the first sweep of any value iteration
+    from below: it is probabilistic and one of its positive-probability moves enters a final state (which
+    carries 1 from the start)."""
+    finals = set(game["final_states"])
+    if 0 in finals:
+        return True
+    moves = game["transition_list"][0]
+    if game["players"][0] == PR:
+        return any(p > 0 and t in finals for p, t in moves)
+    if game["players"][0] == P1:
+        return any(t in finals for _, t in moves)
+    return all(t in finals for _, t in moves)
+
+
+def tiny_direct_games():
+    """State 0 wins directly with a tiny probability (3e-7 ... 5e-324) and loses otherwise, or first passes a
+    fair coin: the value is positive, so the game has a solution in both modes."""
+    for e in (3e-7, 1e-6, 9.9e-7, 1e-7, 1e-9, 1e-12, 1e-30, 1e-300, 5e-324):
+        for rew in ((1, 0, 0), (4.5, 0, 0)):
+            yield dict(rewards=list(rew), players=[PR, PR, PR],
+                       transition_list=[[(e, 1), (1 - e, 2)], [(1, 1)], [(1, 2)]], final_states=[1])
+            yield dict(rewards=list(rew) + [3], players=[PR, PR, PR, P2],
+                       transition_list=[[(0.5, 3), (e, 1), (0.5 - e, 2)], [(1, 1)], [(1, 2)], [("a", 2), ("b", 2)]],
+                       final_states=[1])
+
+
 def tiny_cases():
     for g in games.tiny_reach_games():
         for route in ("prune", "batch"):
+            yield dict(game=g, route=route)
+    for g in tiny_direct_games():
+        for route in ("prune", "no_prune", "batch"):
             yield dict(game=g, route=route)
 
 
@@ -211,7 +242,14 @@ def check_case(case):
         v.inconclusive = "T>300"
         return v
     p0 = pstar[0]
-    undecided0 = 0 < p0 <= 1e-6 * (float(T) + 1) + 1e-9
+    # A positive value within the convergence tolerance may still be reported as 0 by an iteration from below
+    # (it has not travelled back to state 0 when the sweeps stop), and 'no solution' then follows from the
+    # solver's own figure: undecided.  Not so when state 0 itself moves to a final state with positive
+    # probability: every iteration from below, in any sweep order, gives it a positive figure in its first
+    # sweep, however small - 'no solution' is then wrong.
+    undecided0 = 0 < p0 <= 1e-6 * (float(T) + 1) + 1e-9 and not positive_after_one_sweep(game)
+    if 0 < p0 <= 1e-6 * (float(T) + 1) + 1e-9:
+        v.cls("initial_value_within_tolerance_of_0" + ("" if undecided0 else "_but_decided_by_a_direct_move"))
     nt = False
     if p0 == 0:
         v.cls("no_solution_game")
@@ -248,7 +286,21 @@ def check_case(case):
             v.fail("unexpected-error", f"{label}: {type(exc).__name__}: {str(exc)[:160]}",
                    sig=f"{type(exc).__name__}")
 
-    if route in ("prune", "no_prune"):
+    if route.startswith("again_"):
+        # the same description (the very same dict and lists) is solved twice; each solve must end properly
+        from harness.sut import solve as sut_solve
+        helper = Solved.__new__(Solved)
+        helper.facts, helper.iterated_T, helper.iterated_not_stopping = facts, None, False
+        g = copy_game(game)
+        modes = [c == "p" for c in route[len("again_"):]]
+        for i, prune in enumerate(modes):
+            o = sut_solve(g, prune, sweeps=facts.budget, copy=False, on_reward_phase=helper._reward_phase_budget)
+            judge(o.kind, o.exc, o.result, prune,
+                  f"solve(prune={prune})" + (f" as solve no. {i + 1} of the same description (after prune={modes[0]})"
+                                             if i else ""), o.sweeps)
+            if v.inconclusive or o.kind in ("budget", "skipped"):
+                break
+    elif route in ("prune", "no_prune"):
         prune = route == "prune"
         a = Solved(facts, prune)
         o = a.outcome
